@@ -54,6 +54,7 @@ const (
 	PExactSize
 	PNagging
 	PEdgeIDs
+	PTCPSplitWait
 )
 
 var ProbeNames = map[int]string{
@@ -93,6 +94,7 @@ var ProbeNames = map[int]string{
 	PExactSize:             "request_of_exactly_a_receive_buffer_size",
 	PNagging:               "responder_repeats_mismatching_responses_with_the_query_id",
 	PEdgeIDs:               "transaction_ids_0x0000_and_0xffff",
+	PTCPSplitWait:          "tcp_client_waits_for_answer_1_before_completing_frame_2",
 }
 
 var scenarioNames = [...]string{"nbns-server", "nbns-udp+tcp", "llmnr-server", "llmnr-client", "llmnr-client+server", "nbns-challenger", "nbns-lifecycle"}
